@@ -45,7 +45,19 @@ impl Quil for Delay {
             write!(writer, " {}", QuotedString(frame_name))?;
         }
         write!(writer, " ",)?;
-        self.duration.write(writer, fall_back_to_debug)
+        // Without an intervening frame name, anything but a plain non-negative real literal could
+        // be parsed as (the start of) another qubit, so it is parenthesized.
+        let is_plain_literal = matches!(
+            &self.duration,
+            Expression::Number(value) if value.im == 0f64 && value.re >= 0f64
+        );
+        if self.frame_names.is_empty() && !is_plain_literal {
+            write!(writer, "(")?;
+            self.duration.write(writer, fall_back_to_debug)?;
+            write!(writer, ")").map_err(Into::into)
+        } else {
+            self.duration.write(writer, fall_back_to_debug)
+        }
     }
 }
 
